@@ -23,6 +23,7 @@ type g struct {
 	r    *hx.Rng
 	seq  int
 	dups bool
+	failPct int // share of plain submission ticks with a failing watermark write
 }
 
 func (g *g) reset(ih, maxp uint64) {
@@ -86,7 +87,67 @@ func (g *g) script(max int) string {
 	return strings.Join(a, "|")
 }
 
-func (g *g) sub(verb string, script string) { fmt.Fprintf(g.w, "%s script=%s\n", verb, script) }
+func (g *g) sub(verb string, script string) {
+	if g.failPct > 0 && g.r.Chance(g.failPct) {
+		g.subFail(verb, script, 1+g.r.Intn(2))
+		return
+	}
+	fmt.Fprintf(g.w, "%s script=%s\n", verb, script)
+}
+
+// subFail: the next n writes of the watermark (store.SetMetadata = one datastore Put) fail during this tick
+func (g *g) subFail(verb string, script string, n int) {
+	fmt.Fprintf(g.w, "%s script=%s fail=%d\n", verb, script, n)
+}
+
+// failCorpus: the write that persists the watermark fails right after the DA layer accepted and acknowledged - with
+// every answer kind in front, hook bodies and the unmodified loops, both kinds; then further ticks (nothing acknowledged
+// may be submitted again while the node runs), a restart (resumes from the lagging disk copy: re-submits exactly what the
+// lost write covered), a crash, more blocks.
+func (g *g) failCorpus() {
+	for _, a := range []string{"-", "ok:1", "ok:2|ok", "ok:0|ok", "lost|ok", "lost:1|ok:1", "notincluded|ok", "inmempool|ok", "toobig|ok", "error|ok:2", "ok:1|canceled", "canceled"} {
+		for _, real := range []string{"", "real"} {
+			for nf := 1; nf <= 2; nf++ {
+				g.reset(1, 0)
+				g.produce(false)
+				g.produce(a == "ok:1")
+				g.produce(false)
+				g.subFail("subh"+real, a, nf)
+				g.subFail("subd"+real, a, nf)
+				g.sub("subh", "-")
+				g.sub("subd", "-")
+				fmt.Fprintln(g.w, "incl")
+				g.produce(false)
+				if nf == 1 {
+					fmt.Fprintln(g.w, "restart")
+				} else {
+					fmt.Fprintf(g.w, "crash keep=%d\n", g.r.Intn(3))
+				}
+				g.sub("subh"+real, "-")
+				g.sub("subd"+real, "-")
+				g.sub("subd", "-")
+				fmt.Fprintln(g.w, "incl")
+			}
+		}
+	}
+	// a lagging disk copy caught up by the next successful write; two failed persists in a row; restart right after
+	g.reset(2, 0)
+	g.produce(false)
+	g.subFail("subh", "-", 1)
+	g.subFail("subd", "-", 1)
+	g.produce(false)
+	g.sub("subh", "-")
+	g.sub("subd", "-")
+	g.produce(true)
+	g.produce(true)
+	g.subFail("subd", "-", 1) // the all-empty advance of the data watermark fails to persist
+	g.subFail("subh", "ok:1|ok", 2)
+	fmt.Fprintln(g.w, "restart")
+	g.sub("subh", "-")
+	g.sub("subd", "-")
+	g.sub("subd", "-")
+	fmt.Fprintln(g.w, "incl")
+}
 
 // subDuring: a submission body during which the aggregation loop commits a block (after the pending list was read: at
 // the body's first signer call, or at its first Submit call)
@@ -182,6 +243,7 @@ func GenC06(r *hx.Rng, tier string, w io.Writer) {
 		x.sub("subdreal", a)
 		fmt.Fprintln(w, "incl")
 	}
+	x.failCorpus()
 	n := 60
 	if tier == "thorough" {
 		n = 900
@@ -192,6 +254,11 @@ func GenC06(r *hx.Rng, tier string, w io.Writer) {
 			ih = 2 + uint64(r.Intn(4))
 		}
 		x.dups = r.Chance(25)
+		// a modest share of scenarios: some of the watermark writes fail
+		x.failPct = 0
+		if r.Chance(20) {
+			x.failPct = 30
+		}
 		x.reset(ih, 0)
 		steps := 4 + r.Intn(14)
 		for j := 0; j < steps; j++ {
